@@ -94,8 +94,16 @@ def build(c):
 
 def judge(c, rec):
     m, doc = gp.build_model(c["model"])
-    data, raw = build(c)
     fam = c["model"]["family"]
+    try:
+        data, raw = build(c)
+    except ValueError as e:
+        if "Billing data is not allowed" not in str(e):
+            raise
+        # a short span with holes is read as billing data by the daily class: acceptance is C10's subject
+        rec.note("data-class-rejects-short-span-with-holes")
+        rec.case(c, False, ["family=" + fam, "input-rejected"])
+        return
     out = m.predict(data)
     cls = ["family=" + fam, "input=" + c["input"]]
     if "observed" not in out or len(out) == 0:
